@@ -1,11 +1,12 @@
 CHECKS["C10"] = dict(
     engine="E3",
-    overlay_dirs={**SIM, "verifx/c10k": "harness/x/c10k", "verifx/c02": "harness/x/c02", "verifx/certspec": "harness/certspec"}, overlay={**SIM_ACCESS, "protocol/comm/zz_verif_access.go": "harness/access/comm/zz_verif_access.go", "internal/proto/hotstuffpb/zz_verif_c10frame_test.go": "harness/pkg/hotstuffpb/c10frame_test.go", "metrics/zz_verif_c10metrics_test.go": "harness/pkg/metrics/c10metrics_test.go"},
+    overlay_dirs={**SIM, "verifx/c10k": "harness/x/c10k", "verifx/c02": "harness/x/c02", "verifx/certspec": "harness/certspec"}, overlay={**SIM_ACCESS, "protocol/comm/zz_verif_access.go": "harness/access/comm/zz_verif_access.go", "internal/proto/hotstuffpb/zz_verif_c10frame_test.go": "harness/pkg/hotstuffpb/c10frame_test.go", "metrics/zz_verif_c10metrics_test.go": "harness/pkg/metrics/c10metrics_test.go", "core/zz_verif_c10connect_test.go": "harness/pkg/core/c10connect_test.go"},
     units=[unit("c10", "./verifx/sim", "^TestC10", shards=(16, 16), timeout=(900, 3400)),
            unit("c10kauri", "./verifx/c10k", "^TestC10Kauri", shards=(8, 16), timeout=(900, 3400)),
            unit("c10anyqc", "./verifx/c02", "^TestC10ProposalCertificates", shards=(8, 16), timeout=(900, 3400)),
            unit("c10frame", "./internal/proto/hotstuffpb", "^TestC10Frames", shards=(4, 16), timeout=(600, 1800)),
            unit("c10metrics", "./metrics", "^TestC10Metrics", shards=(2, 8), timeout=(600, 1800)),
+           unit("c10connect", "./core", "^TestC10RaceConnect", race=True, shards=(2, 8), timeout=(600, 1800)),
            unit("c10fuzz", "./verifx/sim", "^$", tiers=("thorough",), fuzz="FuzzC10Wire", fuzztime={"quick": 20, "thorough": 240}, fuzzworkers=16, timeout=(600, 900))],
     rule=("a live replica (all real handlers on its event loop; chained/simple/fast; ECDSA/EdDSA/BLS; cache on/off) is first "
           "driven 0..12 FIFO generations into a reachable state, then 1..5 rapid-generated wire messages are handed to the "
@@ -28,7 +29,7 @@ CHECKS["C10"] = dict(
           "member signature under an unknown id, valid one / some / quorum, repeated signer, quorum plus unknown signer), mixed with "
           "the node's own aggregation rounds for blocks of rising view, wait-timer expiries and the connect event. Oracle: no panic; "
           "a contribution in which nothing verifies leaves (aggregate, senders, sent flag, view, messages sent to the parent, "
-          "certificates announced) unchanged. Proposal verification with GENUINE aggregate certificates (TestC10ProposalCertificates, shared generator with C02): Authority.VerifyAnyQC on proposals that combine generated aggregate certificates (honest ones included) with each of 13 prepared block certificates - valid, invalid, and without a signature next to a signed one for the same block and view - never panics. Transport decoding (TestC10Frames): frames (metadata with message id and a METHOD NAME drawn from every descriptor name registered in the process - methods, messages, services, fields, oneofs, enums -, mutations of them, arbitrary strings; payload = arbitrary bytes or encoded repository messages; frames cut at any length) through the codec the repository registers with gRPC; oracle: an error or a message, never a panic (a non-method descriptor name panics in the pinned transport library: open finding 44). Metrics (TestC10Metrics): the throughput, view-timeout and consensus-latency handlers on a replica's event loop receive 1..12 generated events - ExecuteEvents for blocks built from the wire form a peer chooses (Commands field absent / empty / with a nil entry / 1..4 commands), view changes, latency reports, ticks; oracle: no panic."),
+          "certificates announced) unchanged. Proposal verification with GENUINE aggregate certificates (TestC10ProposalCertificates, shared generator with C02): Authority.VerifyAnyQC on proposals that combine generated aggregate certificates (honest ones included) with each of 13 prepared block certificates - valid, invalid, and without a signature next to a signed one for the same block and view - never panics. Transport decoding (TestC10Frames): frames (metadata with message id and a METHOD NAME drawn from every descriptor name registered in the process - methods, messages, services, fields, oneofs, enums -, mutations of them, arbitrary strings; payload = arbitrary bytes or encoded repository messages; frames cut at any length) through the codec the repository registers with gRPC; oracle: an error or a message, never a panic (a non-method descriptor name panics in the pinned transport library: open finding 44). Metrics (TestC10Metrics): the throughput, view-timeout and consensus-latency handlers on a replica's event loop receive 1..12 generated events - ExecuteEvents for blocks built from the wire form a peer chooses (Commands field absent / empty / with a nil entry / 1..4 commands), view changes, latency reports, ticks; oracle: no panic. Connecting (TestC10RaceConnect, race detector): the replica table (n 2..13, 0..n replicas known) is completed by AddReplica / SetReplicaMetadata while 1..4 goroutines do the handlers' lookups (ReplicaInfo, QuorumSize, PeerIDFromContext over a TLS certificate or metadata); oracle: no data race."),
     assumptions=["of the gorums transport only the frame codec is exercised (TestC10Frames); connections, streams and the routing of replies to pending calls are not (protobuf guarantees well-typed messages; byte-level decode fuzzing of the messages is part of C12)",
                  "tree-contribution messages are delivered to a stand-alone tree node (real Kauri module, authority, block chain and event loop; mock sender), not to the full replica stack"],
 )
